@@ -1909,3 +1909,7 @@ M("c20-replay-children-written-when-false", "C20", "R3.emission-guard-withholds-
   "            if self.context_details.replay_children:\n                context_dict", "            if not self.context_details.replay_children:\n                context_dict")
 M("c10-parent-link-not-registered", "C10", "R3.parent-links-are-registered-where-the-walk-reads-them", "state.py",
   "                    self._parent_of[operation_update.operation_id] = (\n                        operation_update.parent_id\n                    )", "                    pass")
+M("c07-running-wait-relooks-every-second", "C07", "R1.replayed-wait-parks-until-its-recorded-end", "operation/wait.py",
+  "            if resume_at <= now:", "            if not resume_at <= now:")
+M("c17-two-record-history-starts-new", "C17", "R3.replay-decision-right-way-round", "execution.py",
+  "            if len(invocation_input.initial_execution_state.operations) > 1", "            if len(invocation_input.initial_execution_state.operations) > 2")
